@@ -255,6 +255,9 @@ def phiY (v : α → Nat) (p : Nat) : List α → Nat
   | [] => 0
   | y :: _ => 6 * v y - p
 
+theorem phiY_nil (v : α → Nat) (p : Nat) : phiY v p [] = 0 := rfl
+theorem phiY_cons (v : α → Nat) (p : Nat) (y : α) (Y : List α) : phiY v p (y :: Y) = 6 * v y - p := rfl
+
 /-- the step threshold `2p` is met by every opening that precedes the state `(X, Y)`:
     either the regime is "capped size", or `2p/6` is at most a remaining big item, or it is at most
     `6y − 2B ≤ 2y` for a remaining medium item `y` that is not the first one -/
@@ -386,12 +389,510 @@ theorem finalW (hB : 0 < B) (cur X Y : List α) (hsX : X.Pairwise (fun a b => v 
     have hmul : c * Y.length ≤ c * (3 * (Textbook.nfCover v B (Textbook.nfRest v B cur X) Y).length + 2) :=
       Nat.mul_le_mul_left _ hYc
     rw [Nat.mul_add, Nat.mul_left_comm] at hmul
-    rw [Nat.mul_add]
+    rw [Nat.mul_add c]
     generalize c * (Textbook.nfCover v B cur X).length = K1 at *
     generalize c * (Textbook.nfCover v B (Textbook.nfRest v B cur X) Y).length = K2 at *
     generalize c * Y.length = K3 at *
     omega
 
 end Final
+
+/-! ## 4. Structure of the run: how a bin is opened, how it is filled -/
+
+section Structure
+variable {v : α → Nat} {B : Nat}
+
+theorem threeClass_nilZ (cur X Y : List α) :
+    Textbook.threeClass v B cur X Y [] = Textbook.nfCover v B cur (X ++ Y) := by
+  rw [Textbook.threeClass]; simp
+
+theorem threeClass_nilXY (cur Z : List α) (hZ : Z ≠ []) :
+    Textbook.threeClass v B cur [] [] Z = Textbook.nfCover v B cur Z.reverse := by
+  rw [Textbook.threeClass]; simp [hZ]
+
+theorem threeClass_step (cur X Y Z : List α) (hZ : Z ≠ []) (h : ¬ (X = [] ∧ Y = [])) :
+    Textbook.threeClass v B cur X Y Z =
+      if B ≤ binSum v (Textbook.fillUp v B (cur ++ (Textbook.opening v X Y).1) Z).1 then
+        (Textbook.fillUp v B (cur ++ (Textbook.opening v X Y).1) Z).1 ::
+          Textbook.threeClass v B [] (Textbook.opening v X Y).2.1 (Textbook.opening v X Y).2.2
+            (Textbook.fillUp v B (cur ++ (Textbook.opening v X Y).1) Z).2
+      else Textbook.threeClass v B (Textbook.fillUp v B (cur ++ (Textbook.opening v X Y).1) Z).1
+        (Textbook.opening v X Y).2.1 (Textbook.opening v X Y).2.2
+        (Textbook.fillUp v B (cur ++ (Textbook.opening v X Y).1) Z).2 := by
+  rw [Textbook.threeClass]
+  simp only [if_neg hZ, dif_neg h]
+
+/-- **How a bin is opened**: by the largest big item `x` (when the two largest medium items together do not
+    exceed it), by the two largest medium items (when together they exceed the largest big item, if any),
+    or by the only medium item when nothing else is left. -/
+theorem opening_cases (X Y : List α) (hne : ¬ (X = [] ∧ Y = [])) (hbX : ∀ x ∈ X, B ≤ 2 * v x)
+    (hmY : ∀ y ∈ Y, B ≤ 3 * v y ∧ 2 * v y < B) :
+    (∃ x X', X = x :: X' ∧ binSum v (Y.take 2) ≤ v x ∧ Textbook.opening v X Y = ([x], X', Y)) ∨
+    (∃ ya yb Y', Y = ya :: yb :: Y' ∧ (∀ x X', X = x :: X' → v x < v ya + v yb) ∧
+      Textbook.opening v X Y = ([ya, yb], X, Y')) ∨
+    (∃ ya, X = [] ∧ Y = [ya] ∧ Textbook.opening v X Y = ([ya], [], [])) := by
+  cases X with
+  | nil =>
+    match Y, hne, hmY with
+    | [], hne, _ => exact absurd ⟨rfl, rfl⟩ hne
+    | [ya], _, _ => exact Or.inr (Or.inr ⟨ya, rfl, rfl, rfl⟩)
+    | ya :: yb :: Y', _, _ =>
+      exact Or.inr (Or.inl ⟨ya, yb, Y', rfl, fun _ _ h => by simp at h, rfl⟩)
+  | cons x X' =>
+    by_cases h : binSum v (Y.take 2) ≤ v x
+    · exact Or.inl ⟨x, X', rfl, h, by simp [Textbook.opening, h]⟩
+    · have hx := hbX x List.mem_cons_self
+      match Y, h, hmY with
+      | [], h, _ => simp [binSum, sumL] at h
+      | [ya], h, hmY =>
+        have := (hmY ya List.mem_cons_self).2
+        simp [binSum, sumL] at h
+        omega
+      | ya :: yb :: Y', h, _ =>
+        have h' : ¬ (v ya + v yb ≤ v x) := by simpa [binSum, sumL] using h
+        refine Or.inr (Or.inl ⟨ya, yb, Y', rfl, ?_, by simp [Textbook.opening, binSum, sumL, h']⟩)
+        intro x' X'' e
+        cases e
+        omega
+
+/-- the lists that remain after an opening are again sorted lists of big / medium items, and shorter -/
+theorem opening_pres (X Y : List α) (hne : ¬ (X = [] ∧ Y = [])) (hsX : X.Pairwise (fun a b => v b ≤ v a))
+    (hbX : ∀ x ∈ X, B ≤ 2 * v x) (hsY : Y.Pairwise (fun a b => v b ≤ v a))
+    (hmY : ∀ y ∈ Y, B ≤ 3 * v y ∧ 2 * v y < B) {O X1 Y1 : List α}
+    (hO : Textbook.opening v X Y = (O, X1, Y1)) :
+    X1.Pairwise (fun a b => v b ≤ v a) ∧ (∀ x ∈ X1, B ≤ 2 * v x) ∧
+    Y1.Pairwise (fun a b => v b ≤ v a) ∧ (∀ y ∈ Y1, B ≤ 3 * v y ∧ 2 * v y < B) ∧
+    X1.length + Y1.length < X.length + Y.length := by
+  have hlen := Textbook.opening_length v X Y hne
+  rw [hO] at hlen
+  refine ⟨?_, ?_, ?_, ?_, hlen⟩
+  all_goals
+    rcases opening_cases X Y hne hbX hmY with ⟨x, X', rfl, _, e⟩ | ⟨ya, yb, Y', rfl, _, e⟩ | ⟨ya, rfl, rfl, e⟩
+    all_goals
+      rw [e] at hO
+      simp only [Prod.mk.injEq] at hO
+      obtain ⟨rfl, rfl, rfl⟩ := hO
+  · exact (List.pairwise_cons.1 hsX).2
+  · exact hsX
+  · exact List.Pairwise.nil
+  · exact fun y hy => hbX y (List.mem_cons_of_mem _ hy)
+  · exact hbX
+  · exact fun y hy => by simp at hy
+  · exact hsY
+  · exact (List.pairwise_cons.1 (List.pairwise_cons.1 hsY).2).2
+  · exact List.Pairwise.nil
+  · exact hmY
+  · exact fun y hy => hmY y (List.mem_cons_of_mem _ (List.mem_cons_of_mem _ hy))
+  · exact fun y hy => by simp at hy
+
+theorem wt_big_thr {c p : Nat} (h2 : c + 2 * p = 6 * B) {x : α} (h : c = 2 * B ∨ 2 * p ≤ 6 * v x) :
+    wt v c p x + 2 * p ≤ 2 * c + 6 * v x := by
+  rcases h with h | h
+  · have := wt_cap (v := v) h2 h x; omega
+  · exact wt_big_above h2 h
+
+/-- **The weight of a bin of the main phase.**  `c, p` are parameters that are good for the state after the
+    opening (`Inv`).  Then they are good for the state before it, and the opening items `O` together with small
+    items of total value `s` (all but the last one: `binSum v O + s < B`) and one more small item (weight `≤ c`)
+    weigh at most `4c`, up to what the medium budget `phiY` pays. -/
+theorem opening_facts {c p : Nat} (h1 : c ≤ p) (h2 : c + 2 * p = 6 * B) (X Y : List α)
+    (hne : ¬ (X = [] ∧ Y = [])) (hsX : X.Pairwise (fun a b => v b ≤ v a))
+    (hbX : ∀ x ∈ X, B ≤ 2 * v x) (hsY : Y.Pairwise (fun a b => v b ≤ v a))
+    (hmY : ∀ y ∈ Y, B ≤ 3 * v y ∧ 2 * v y < B) {O X1 Y1 : List α}
+    (hO : Textbook.opening v X Y = (O, X1, Y1)) (hinv : Inv v B c p X1 Y1) :
+    Inv v B c p X Y ∧
+    binSum (wt v c p) (X ++ Y) = binSum (wt v c p) O + binSum (wt v c p) (X1 ++ Y1) ∧
+    (∀ s, binSum v O + s < B →
+      3 * (binSum (wt v c p) O + 6 * s + c) + 3 * phiY v p Y1 ≤ 12 * c + 3 * phiY v p Y) ∧
+    (B ≤ binSum v O → 3 * binSum (wt v c p) O + 3 * phiY v p Y1 ≤ 12 * c + 3 * phiY v p Y) := by
+  rcases opening_cases X Y hne hbX hmY with ⟨x, X', rfl, hrule, e⟩ | ⟨ya, yb, Y', rfl, hrule, e⟩ |
+    ⟨ya, rfl, rfl, e⟩
+  all_goals
+    rw [e] at hO
+    simp only [Prod.mk.injEq] at hO
+    obtain ⟨rfl, rfl, rfl⟩ := hO
+  · -- a big item opens the bin
+    rw [List.pairwise_cons] at hsX
+    have hthr : c = 2 * B ∨ 2 * p ≤ 6 * v x := by
+      rcases hinv with h | ⟨x0, hx0, h⟩ | ⟨y, hy, h⟩
+      · exact Or.inl h
+      · have := hsX.1 x0 hx0; exact Or.inr (by omega)
+      · right
+        match Y, hy, hsY, hmY, hrule with
+        | [_], hy, _, _, _ => simp at hy
+        | a :: b :: Y', hy, hsY, hmY, hrule =>
+          simp only [List.tail_cons] at hy
+          rw [List.pairwise_cons, List.pairwise_cons] at hsY
+          have hyb : v y ≤ v b := by
+            rcases List.mem_cons.1 hy with rfl | hy'
+            · exact Nat.le_refl _
+            · exact hsY.2.1 y hy'
+          have hba := hsY.1 b (by simp)
+          have hym := (hmY y (List.mem_cons_of_mem _ hy)).2
+          simp [binSum, sumL] at hrule
+          omega
+    have hw := wt_big_thr (v := v) h2 hthr
+    have hw3 : wt v c p x ≤ 3 * c := wt_le x
+    refine ⟨?_, ?_, ?_, ?_⟩
+    · rcases hinv with h | ⟨x0, hx0, h⟩ | h
+      · exact Or.inl h
+      · exact Or.inr (Or.inl ⟨x0, List.mem_cons_of_mem _ hx0, h⟩)
+      · exact Or.inr (Or.inr h)
+    · simp only [List.cons_append, Cover.binSum_cons, Cover.binSum_nil]; omega
+    · intro s hs
+      simp only [Cover.binSum_cons, Cover.binSum_nil] at hs ⊢
+      omega
+    · intro _
+      simp only [Cover.binSum_cons, Cover.binSum_nil]
+      omega
+  · -- the two largest medium items open the bin
+    rw [List.pairwise_cons, List.pairwise_cons] at hsY
+    have hma := hmY ya List.mem_cons_self
+    have hmb := hmY yb (by simp)
+    have hba := hsY.1 yb (by simp)
+    have hthr : 2 * p ≤ 6 * (v ya + v yb) := by
+      rcases hinv with h | ⟨x0, hx0, h⟩ | ⟨y, hy, h⟩
+      · omega
+      · match X, hx0, hsX, hrule with
+        | x :: X', hx0, hsX, hrule =>
+          have := hrule x X' rfl
+          rw [List.pairwise_cons] at hsX
+          rcases List.mem_cons.1 hx0 with rfl | hx0'
+          · omega
+          · have := hsX.1 x0 hx0'; omega
+      · have hy' := List.mem_of_mem_tail hy
+        have := hsY.2.1 y hy'
+        have := (hmY y (List.mem_cons_of_mem _ (List.mem_cons_of_mem _ hy'))).2
+        omega
+    have hwa := wt_medium (v := v) h1 h2 hma
+    have hwb := wt_medium (v := v) h1 h2 hmb
+    have hphi : phiY v p Y' ≤ 6 * v yb - p := by
+      cases Y' with
+      | nil => simp [phiY]
+      | cons y3 Y'' =>
+        have := hsY.2.1 y3 List.mem_cons_self
+        simp only [phiY]; omega
+    refine ⟨?_, ?_, ?_, ?_⟩
+    · rcases hinv with h | h | ⟨y, hy, h⟩
+      · exact Or.inl h
+      · exact Or.inr (Or.inl h)
+      · exact Or.inr (Or.inr ⟨y, by
+          simp only [List.tail_cons]
+          exact List.mem_cons_of_mem _ (List.mem_of_mem_tail hy), h⟩)
+    · simp only [Cover.binSum_append, Cover.binSum_cons, Cover.binSum_nil]; omega
+    · intro s hs
+      simp only [Cover.binSum_cons, Cover.binSum_nil, phiY_cons] at hs ⊢
+      omega
+    · intro hcov
+      simp only [Cover.binSum_cons, Cover.binSum_nil] at hcov
+      omega
+  · -- the only medium item opens the bin: nothing else is left, the regime is "capped size"
+    have hc : c = 2 * B := by
+      rcases hinv with h | ⟨x0, hx0, _⟩ | ⟨y, hy, _⟩
+      · exact h
+      · simp at hx0
+      · simp at hy
+    have hw := wt_cap (v := v) h2 hc ya
+    have hma := hmY ya List.mem_cons_self
+    refine ⟨Or.inl hc, ?_, ?_, ?_⟩
+    · simp only [List.nil_append, Cover.binSum_cons, Cover.binSum_nil]
+    · intro s hs
+      simp only [Cover.binSum_cons, Cover.binSum_nil, phiY_cons, phiY_nil] at hs ⊢
+      omega
+    · intro hcov
+      simp only [Cover.binSum_cons, Cover.binSum_nil] at hcov
+      omega
+
+end Structure
+
+section Structure2
+variable {v : α → Nat} {B : Nat}
+
+/-- **One round of the main phase** (small items left, and big or medium items left).  The opening items `O`
+    receive a prefix `taken` of the small items (smallest first).  Either the bin `O ++ taken` is covered: it is
+    the first bin of the result, the run continues with the remaining lists, and — unless nothing was taken —
+    the bin was still below `B` before its last item; or the small items have run out (`left = []`) and the
+    uncovered bin is the current bin of next-fit on the remaining big, then medium items. -/
+theorem threeClass_main_step (X Y Z : List α) (hZ : Z ≠ []) (hXY : ¬ (X = [] ∧ Y = [])) {O X1 Y1 : List α}
+    (hO : Textbook.opening v X Y = (O, X1, Y1)) :
+    ∃ taken left, Z = taken ++ left ∧
+      ((B ≤ binSum v (O ++ taken) ∧
+          Textbook.threeClass v B [] X Y Z = (O ++ taken) :: Textbook.threeClass v B [] X1 Y1 left ∧
+          (taken = [] ∨ ∃ t last, taken = t ++ [last] ∧ binSum v (O ++ t) < B)) ∨
+       (binSum v (O ++ taken) < B ∧ left = [] ∧
+          Textbook.threeClass v B [] X Y Z = Textbook.nfCover v B (O ++ taken) (X1 ++ Y1))) := by
+  obtain ⟨taken, left, hZeq, hfill, hshape⟩ := Cover23.fillUp_spec v B Z O
+  refine ⟨taken, left, hZeq, ?_⟩
+  rw [threeClass_step [] X Y Z hZ hXY]
+  simp only [List.nil_append, hO, hfill]
+  by_cases hcov : B ≤ binSum v (O ++ taken)
+  · exact Or.inl ⟨hcov, by rw [if_pos hcov], hshape⟩
+  · have hleft : left = [] := by
+      have := Textbook.fillUp_uncovered v B Z O
+      rw [hfill] at this
+      exact this (Nat.lt_of_not_le hcov)
+    subst hleft
+    exact Or.inr ⟨Nat.lt_of_not_le hcov, rfl, by rw [if_neg hcov, threeClass_nilZ]⟩
+
+/-- **The sum of a bin of the main phase**: a covered bin `O ++ taken` is a single item of value `≥ B`, or its
+    sum is below `4B/3` (it was below `B` before the last, small, item). -/
+theorem main_bin_sum (X Y : List α) (hXY : ¬ (X = [] ∧ Y = [])) (hbX : ∀ x ∈ X, B ≤ 2 * v x)
+    (hmY : ∀ y ∈ Y, B ≤ 3 * v y ∧ 2 * v y < B) {O X1 Y1 taken : List α}
+    (hO : Textbook.opening v X Y = (O, X1, Y1)) (hz : ∀ z ∈ taken, 3 * v z < B)
+    (hcov : B ≤ binSum v (O ++ taken))
+    (hshape : taken = [] ∨ ∃ t last, taken = t ++ [last] ∧ binSum v (O ++ t) < B) :
+    (∃ x, O = [x] ∧ B ≤ v x ∧ taken = []) ∨ 3 * binSum v (O ++ taken) < 4 * B := by
+  rcases hshape with rfl | ⟨t, last, rfl, hlt⟩
+  · left
+    rw [List.append_nil] at hcov
+    rcases opening_cases X Y hXY hbX hmY with ⟨x, X', rfl, _, e⟩ | ⟨ya, yb, Y', rfl, _, e⟩ | ⟨ya, rfl, rfl, e⟩
+    all_goals
+      rw [e] at hO
+      simp only [Prod.mk.injEq] at hO
+      obtain ⟨rfl, rfl, rfl⟩ := hO
+    · exact ⟨x, rfl, by simpa [Cover.binSum_cons, Cover.binSum_nil] using hcov, rfl⟩
+    · have := (hmY ya List.mem_cons_self).2
+      have := (hmY yb (by simp)).2
+      simp only [Cover.binSum_cons, Cover.binSum_nil] at hcov
+      omega
+    · have := (hmY ya List.mem_cons_self).2
+      simp only [Cover.binSum_cons, Cover.binSum_nil] at hcov
+      omega
+  · right
+    have := hz last (by simp)
+    rw [← List.append_assoc, binSum_snoc]
+    omega
+
+end Structure2
+
+/-! ## 5. The algorithm's side: total weight `≤ 4c·ALG + 26c/3 + c/2` for parameters read off the run -/
+
+section Main
+variable {v : α → Nat} {B : Nat}
+
+/-- the two ways the main phase ends: no small items (next-fit on big, then medium items), or only small items -/
+theorem mainW_base (hB : 0 < B) (X Y Z : List α) (hsX : X.Pairwise (fun a b => v b ≤ v a))
+    (hbX : ∀ x ∈ X, B ≤ 2 * v x) (hsY : Y.Pairwise (fun a b => v b ≤ v a))
+    (hmY : ∀ y ∈ Y, B ≤ 3 * v y ∧ 2 * v y < B) (hzZ : ∀ z ∈ Z, 3 * v z < B)
+    (h : Z = [] ∨ (X = [] ∧ Y = [])) :
+    ∃ c p, 0 < c ∧ c ≤ p ∧ c + 2 * p = 6 * B ∧ Inv v B c p X Y ∧
+      3 * binSum (wt v c p) (X ++ Y ++ Z) ≤
+        12 * (c * (Textbook.threeClass v B [] X Y Z).length) + 26 * c + 3 * phiY v p Y := by
+  by_cases hZ : Z = []
+  · subst hZ
+    obtain ⟨c, p, hc0, h1, h2, hinv, hw⟩ := finalW hB [] X Y hsX hbX hsY hmY
+    refine ⟨c, p, hc0, h1, h2, hinv, ?_⟩
+    rw [threeClass_nilZ, List.append_nil]
+    omega
+  · obtain ⟨rfl, rfl⟩ := h.resolve_left hZ
+    refine ⟨2 * B, 2 * B, by omega, Nat.le_refl _, by omega, Or.inl rfl, ?_⟩
+    rw [threeClass_nilXY [] Z hZ, List.nil_append, List.nil_append, phiY_nil]
+    have h1 := binSum_wt_cap (v := v) (c := 2 * B) (p := 2 * B) (B := B) (by omega) rfl Z
+    have h2 := nf_small (v := v) (B := B) Z.reverse [] (fun z hz => hzZ z (List.mem_reverse.1 hz))
+      (by rw [Cover.binSum_nil]; exact hB)
+    rw [Cover.binSum_nil, Cover.binSum_perm v (List.reverse_perm Z)] at h2
+    rw [Nat.mul_assoc]
+    generalize B * (Textbook.nfCover v B [] Z.reverse).length = K at *
+    omega
+
+theorem binSum_wt_snoc_small {c p : Nat} (h1 : c ≤ p) (h2 : c + 2 * p = 6 * B) (t : List α) (last : α)
+    (hz : ∀ z ∈ t ++ [last], 3 * v z < B) :
+    binSum (wt v c p) (t ++ [last]) ≤ 6 * binSum v t + c := by
+  have ht := binSum_wt_small (v := v) h1 h2 t (fun z hz' => hz z (List.mem_append_left _ hz'))
+  have hl := (wt_small (v := v) h1 h2 (hz last (by simp))).2
+  rw [binSum_snoc]
+  omega
+
+/-- **The algorithm's side.**  `X` (big) and `Y` (medium) sorted by non-increasing value, `Z` small items. -/
+theorem mainW (hB : 0 < B) : ∀ (n : Nat) (X Y Z : List α), X.length + Y.length ≤ n →
+    X.Pairwise (fun a b => v b ≤ v a) → (∀ x ∈ X, B ≤ 2 * v x) →
+    Y.Pairwise (fun a b => v b ≤ v a) → (∀ y ∈ Y, B ≤ 3 * v y ∧ 2 * v y < B) →
+    (∀ z ∈ Z, 3 * v z < B) →
+    ∃ c p, 0 < c ∧ c ≤ p ∧ c + 2 * p = 6 * B ∧ Inv v B c p X Y ∧
+      3 * binSum (wt v c p) (X ++ Y ++ Z) ≤
+        12 * (c * (Textbook.threeClass v B [] X Y Z).length) + 26 * c + 3 * phiY v p Y := by
+  intro n
+  induction n with
+  | zero =>
+    intro X Y Z hn hsX hbX hsY hmY hzZ
+    have hX : X = [] := List.eq_nil_of_length_eq_zero (by omega)
+    have hY : Y = [] := List.eq_nil_of_length_eq_zero (by omega)
+    exact mainW_base hB X Y Z hsX hbX hsY hmY hzZ (Or.inr ⟨hX, hY⟩)
+  | succ n ih =>
+    intro X Y Z hn hsX hbX hsY hmY hzZ
+    by_cases hZ : Z = []
+    · exact mainW_base hB X Y Z hsX hbX hsY hmY hzZ (Or.inl hZ)
+    by_cases hXY : X = [] ∧ Y = []
+    · exact mainW_base hB X Y Z hsX hbX hsY hmY hzZ (Or.inr hXY)
+    rcases hO : Textbook.opening v X Y with ⟨O, X1, Y1⟩
+    obtain ⟨hsX1, hbX1, hsY1, hmY1, hlen⟩ := opening_pres X Y hXY hsX hbX hsY hmY hO
+    obtain ⟨taken, left, hZeq, hfill, hshape⟩ := Cover23.fillUp_spec v B Z O
+    have hztaken : ∀ z ∈ taken, 3 * v z < B := fun z hz => hzZ z (by rw [hZeq]; exact List.mem_append_left _ hz)
+    have hzleft : ∀ z ∈ left, 3 * v z < B := fun z hz => hzZ z (by rw [hZeq]; exact List.mem_append_right _ hz)
+    rw [threeClass_step [] X Y Z hZ hXY]
+    simp only [List.nil_append, hO, hfill]
+    by_cases hcov : B ≤ binSum v (O ++ taken)
+    · -- the bin is covered and closed
+      rw [if_pos hcov, List.length_cons]
+      obtain ⟨c, p, hc0, h1, h2, hinv, hw⟩ := ih X1 Y1 left (by omega) hsX1 hbX1 hsY1 hmY1 hzleft
+      obtain ⟨hinv', hsum, hF2, hF3⟩ := opening_facts h1 h2 X Y hXY hsX hbX hsY hmY hO hinv
+      refine ⟨c, p, hc0, h1, h2, hinv', ?_⟩
+      rw [Nat.mul_succ]
+      rcases hshape with rfl | ⟨t, last, rfl, hlt⟩
+      · have h3 := hF3 (by simpa using hcov)
+        rw [hZeq]
+        simp only [Cover.binSum_append, List.nil_append] at hsum hw ⊢
+        generalize c * (Textbook.threeClass v B [] X1 Y1 left).length = K at *
+        omega
+      · rw [Cover.binSum_append] at hlt
+        have h3 := hF2 (binSum v t) hlt
+        have h4 := binSum_wt_snoc_small (v := v) h1 h2 t last hztaken
+        rw [hZeq]
+        simp only [Cover.binSum_append] at hsum hw h4 ⊢
+        generalize c * (Textbook.threeClass v B [] X1 Y1 left).length = K at *
+        omega
+    · -- the small items have run out before the bin is covered
+      rw [if_neg hcov]
+      have hleft : left = [] := by
+        have := Textbook.fillUp_uncovered v B Z O
+        rw [hfill] at this
+        exact this (Nat.lt_of_not_le hcov)
+      subst hleft
+      rw [threeClass_nilZ]
+      obtain ⟨c, p, hc0, h1, h2, hinv, hw⟩ := finalW hB (O ++ taken) X1 Y1 hsX1 hbX1 hsY1 hmY1
+      obtain ⟨hinv', hsum, hF2, _⟩ := opening_facts h1 h2 X Y hXY hsX hbX hsY hmY hO hinv
+      refine ⟨c, p, hc0, h1, h2, hinv', ?_⟩
+      have hlt : binSum v O + binSum v taken < B := by
+        rw [← Cover.binSum_append]; omega
+      have h3 := hF2 (binSum v taken) hlt
+      have h4 := binSum_wt_small (v := v) h1 h2 taken hztaken
+      rw [hZeq]
+      simp only [Cover.binSum_append, List.append_nil] at hsum hw ⊢
+      generalize c * (Textbook.nfCover v B (O ++ taken) (X1 ++ Y1)).length = K at *
+      omega
+
+end Main
+
+/-! ## 6. The theorem -/
+
+section Theorem
+variable {v : α → Nat} {B m : Nat} {items : List α}
+
+/-- the three classes partition the items -/
+theorem binSum_classes (w : α → Nat) (v : α → Nat) (B : Nat) : ∀ s : List α,
+    binSum w (s.filter (fun x => B ≤ 2 * v x) ++ s.filter (fun x => B ≤ 3 * v x ∧ 2 * v x < B) ++
+      (s.filter (fun x => 3 * v x < B)).reverse) = binSum w s := by
+  intro s
+  rw [Cover.binSum_append, Cover.binSum_append, Cover.binSum_perm w (List.reverse_perm _)]
+  induction s with
+  | nil => simp [Cover.binSum_nil]
+  | cons x s ih =>
+    simp only [List.filter_cons]
+    by_cases h1 : B ≤ 2 * v x
+    · have h2 : ¬ (B ≤ 3 * v x ∧ 2 * v x < B) := by omega
+      have h3 : ¬ (3 * v x < B) := by omega
+      simp only [h1, h2, h3, decide_true, decide_false, if_true, Bool.false_eq_true, if_false,
+        Cover.binSum_cons]
+      omega
+    · by_cases h2 : B ≤ 3 * v x ∧ 2 * v x < B
+      · have h3 : ¬ (3 * v x < B) := by omega
+        simp only [h1, h2, h3, decide_true, decide_false, if_true, Bool.false_eq_true, if_false,
+          Cover.binSum_cons, and_self]
+        omega
+      · have h3 : 3 * v x < B := by omega
+        simp only [h1, h2, h3, decide_true, decide_false, if_true, Bool.false_eq_true, if_false,
+          Cover.binSum_cons]
+        omega
+
+/-- sharp form, against the list formulation of coverability; no positivity needed:
+    `3·OPT ≤ 4·ALG + 9` -/
+theorem threeQuarters_three_quarters_coverableL (hB : 0 < B) (hm : Cover.CoverableL B m (items.map v)) :
+    3 * m ≤ 4 * (threeQuarters v B items).lists.length + 9 := by
+  rw [Textbook.threeQuarters_eq_spec, Textbook.threeQuartersSpec]
+  have hs := Part.sortDesc_sorted v items
+  generalize hsdef : sortDesc v items = s at *
+  obtain ⟨c, p, hc0, h1, h2, _, hw⟩ := mainW (v := v) hB _
+    (s.filter (fun x => B ≤ 2 * v x)) (s.filter (fun x => B ≤ 3 * v x ∧ 2 * v x < B))
+    (s.filter (fun x => 3 * v x < B)).reverse (Nat.le_refl _)
+    (hs.filter _) (fun x hx => by simpa using (List.mem_filter.1 hx).2)
+    (hs.filter _) (fun x hx => by simpa using (List.mem_filter.1 hx).2)
+    (fun z hz => by simpa using (List.mem_filter.1 (List.mem_reverse.1 hz)).2)
+  have hopt := coverableL_weight (v := v) h1 h2 hm
+  have hperm : (sortDesc v items).Perm items := Cover.sortDesc_perm v items
+  rw [← Cover.binSum_perm _ hperm, hsdef, ← binSum_classes (wt v c p) v B s] at hopt
+  have hphi := phiY_le (v := v) h2 (s.filter (fun x => B ≤ 3 * v x ∧ 2 * v x < B))
+    (fun y hy => by have := (List.mem_filter.1 hy).2; simp at this; exact this.2)
+  generalize (Textbook.threeClass v B [] (s.filter (fun x => B ≤ 2 * v x))
+    (s.filter (fun x => B ≤ 3 * v x ∧ 2 * v x < B)) (s.filter (fun x => 3 * v x < B)).reverse).length = A at *
+  have h3 : c * (18 * m) ≤ c * (24 * A + 55) := by
+    have e1 : c * (18 * m) = 6 * (m * (3 * c)) := by ring
+    have e2 : c * (24 * A + 55) = 24 * (c * A) + 55 * c := by ring
+    omega
+  have := Nat.le_of_mul_le_mul_left h3 hc0
+  omega
+
+/-- `m` coverable → `3m ≤ 4·ALG + 9` (no positivity needed) -/
+theorem threeQuarters_three_quarters_strong (hB : 0 < B) (hm : Coverable B m (items.map v)) :
+    3 * m ≤ 4 * (threeQuarters v B items).lists.length + 9 :=
+  threeQuarters_three_quarters_coverableL hB (Cover.coverable_coverableL hm)
+
+/-- **C10 for the three-quarters algorithm** (as requested): `ALG ≥ 3/4·OPT − 4`, where `OPT` is any coverable
+    number of bins.  (`threeQuarters_three_quarters_strong` has the additive constant `9` instead of `16`, and
+    positivity of the values is not needed.) -/
+theorem threeQuarters_three_quarters (hB : 0 < B) (_hpos : ∀ x ∈ items, 0 < v x)
+    (hm : Coverable B m (items.map v)) : 3 * m ≤ 4 * (threeQuarters v B items).lists.length + 16 := by
+  have := threeQuarters_three_quarters_strong hB hm
+  omega
+
+/-- the same against the oracle: `3·OPT ≤ 4·ALG + 9` with `OPT = optCover B values` -/
+theorem threeQuarters_three_quarters_opt (hB : 0 < B) :
+    3 * optCover B (items.map v) ≤ 4 * (threeQuarters v B items).lists.length + 9 :=
+  threeQuarters_three_quarters_strong (v := v) (items := items) hB (Checkers.optCover_spec hB).1
+
+/-- (ii) the bound for instances without medium items (a special case of the theorem) -/
+theorem threeQuarters_no_medium (hB : 0 < B) (_hnm : ∀ x ∈ items, ¬ (B ≤ 3 * v x ∧ 2 * v x < B))
+    (hm : Coverable B m (items.map v)) : 3 * m ≤ 4 * (threeQuarters v B items).lists.length + 9 :=
+  threeQuarters_three_quarters_strong hB hm
+
+/-- (iii) the bound for instances without big items (a special case of the theorem) -/
+theorem threeQuarters_no_big (hB : 0 < B) (_hnb : ∀ x ∈ items, 2 * v x < B)
+    (hm : Coverable B m (items.map v)) : 3 * m ≤ 4 * (threeQuarters v B items).lists.length + 9 :=
+  threeQuarters_three_quarters_strong hB hm
+
+end Theorem
+
+/-! ## 7. Non-vacuity -/
+
+/-- four bins of size 60 can be covered with these ten items … -/
+theorem example_coverable :
+    Coverable 60 4 (([43, 43, 43, 43, 22, 22, 15, 15, 2, 2] : List Nat).map id) :=
+  Cover.coverableL_coverable
+    ⟨[[43, 22], [43, 22], [43, 15, 2], [43, 15, 2]], rfl, by decide, [], by decide⟩
+
+/-- … the algorithm covers three (two medium items and small items, then pairs of big items) -/
+example : (threeQuarters id 60 [43, 43, 43, 43, 22, 22, 15, 15, 2, 2]).lists =
+    [[22, 22, 2, 2, 15], [43, 15, 43], [43, 43]] := by decide
+
+example : 3 * 4 ≤ 4 * (threeQuarters id 60 [43, 43, 43, 43, 22, 22, 15, 15, 2, 2]).lists.length + 16 :=
+  threeQuarters_three_quarters (by decide) (by decide) example_coverable
+
+example : 3 * 4 ≤ 4 * (threeQuarters id 60 [43, 43, 43, 43, 22, 22, 15, 15, 2, 2]).lists.length + 9 :=
+  threeQuarters_three_quarters_strong (by decide) example_coverable
+
+/-- no medium items: two bins can be covered, the algorithm covers two -/
+theorem example_no_medium : Coverable 12 2 (([9, 8, 3, 3, 1] : List Nat).map id) :=
+  Cover.coverableL_coverable ⟨[[9, 3], [8, 3, 1]], rfl, by decide, [], by decide⟩
+
+example : 3 * 2 ≤ 4 * (threeQuarters id 12 [9, 8, 3, 3, 1]).lists.length + 9 :=
+  threeQuarters_no_medium (by decide) (by decide) example_no_medium
+
+/-- no big items: two bins can be covered, the algorithm covers one -/
+theorem example_no_big : Coverable 12 2 (([5, 5, 4, 4, 3, 3] : List Nat).map id) :=
+  Cover.coverableL_coverable ⟨[[5, 4, 3], [5, 4, 3]], rfl, by decide, [], by decide⟩
+
+example : (threeQuarters id 12 [5, 5, 4, 4, 3, 3]).lists = [[5, 5, 3]] := by decide
+
+example : 3 * 2 ≤ 4 * (threeQuarters id 12 [5, 5, 4, 4, 3, 3]).lists.length + 9 :=
+  threeQuarters_no_big (by decide) (by decide) example_no_big
 
 end Prtpy.Cover34
